@@ -90,6 +90,9 @@ def case_strategy(draw, big=False):
                 rr = [o['obj']['r'] for o in objs if o['tag'] == t][0] * max([s['f'] for s in case['scales']] + [1.0]) ** 2
                 lds.append({'kind': 'ins', 'radius': gen.r6(rr * draw(st.floats(1.5, 4))), 'eps': gen.r6(draw(st.floats(1.0, 10.0))), 'tag': t})
     case['loads'] = lds
+    nat = sum(len(l.get('attach', [])) for l in lds)
+    if nat >= 2 and draw(st.booleans()):
+        case['attach_perm'] = list(draw(st.permutations(list(range(nat)))))
     return case
 
 
